@@ -38,7 +38,10 @@ static int check_encode(int codec, const unsigned char *in, size_t n, size_t cap
 	memset(out, 0xAA, cap + 1);
 	size_t consumed = cap;
 	int before = W.sanitizer_reports;
-	int w = ops[codec]->encode((char *)out, &consumed, in, n);
+	/* the input lives in an allocation of exactly n bytes too: a read past its end is reported by ASan */
+	unsigned char *inx = malloc(n ? n : 1); memcpy(inx, in, n);
+	int w = ops[codec]->encode((char *)out, &consumed, inx, n);
+	free(inx);
 	xp_count(K_CALLS, 1);
 	int ok = 1;
 	last_consumed = consumed; last_w = w;
@@ -70,7 +73,9 @@ static int check_encode(int codec, const unsigned char *in, size_t n, size_t cap
 	/* what the emitted text decodes to, by the real decoder and by the reference */
 	{
 		size_t dl = sizeof dec - 1;
-		int d = ops[codec]->decode(dec, &dl, (char *)out, w);
+		char *tx = malloc(w > 0 ? w : 1); if (w > 0) memcpy(tx, out, w);       /* exactly w characters, no terminator */
+		int d = ops[codec]->decode(dec, &dl, tx, w);
+		free(tx);
 		xp_count(K_CALLS, 1);
 		size_t rd = ref_decode(codec, out, w, refdec);
 		if (d < 0 || (size_t)d != consumed) { fail(codec, "enc-consumed", in, n, cap, "reports %zu bytes consumed but its text (%d chars) decodes to %d", consumed, w, d); ok = 0; }
@@ -92,7 +97,9 @@ static void check_decode_caps(int codec, const unsigned char *in, size_t n)
 		unsigned char *out = malloc(cap + 1);
 		memset(out, 0xAA, cap + 1);
 		size_t dl = cap;
-		int d = ops[codec]->decode(out, &dl, (char *)enc, el);
+		char *tx = malloc(el ? el : 1); memcpy(tx, enc, el);
+		int d = ops[codec]->decode(out, &dl, tx, el);
+		free(tx);
 		xp_count(K_CALLS, 1);
 		size_t want = cap < n ? cap : n;
 		if (d < 0 || (size_t)d > cap) fail(codec, "dec-overrun", in, n, cap, "decoder wrote %d bytes with capacity %zu", d, cap);
